@@ -58,7 +58,7 @@ func c17Variants() []c17Variant {
 		}},
 		{"rdnss-static", func(i *ref.Iface) { i.RDNSS = append(i.RDNSS, T("servers", []string{"2001:db8::54", "2001:db8::53"})) }},
 		{"rdnss-wildcard", func(i *ref.Iface) { i.RDNSS = append(i.RDNSS, T("lifetime", "1m")) }},
-		{"dnssl", func(i *ref.Iface) { i.DNSSL = append(i.DNSSL, T("domain_names", []string{"b.example", "a.example"})) }},
+		{"dnssl", func(i *ref.Iface) { i.DNSSL = append(i.DNSSL, T("domain_names", []string{"B.Example", "a.example"})) }},
 		{"mtu", func(i *ref.Iface) { i.Scalars["mtu"] = 1500 }},
 		{"no-lla", func(i *ref.Iface) { i.Scalars["source_lla"] = false }},
 		{"captive-portal", func(i *ref.Iface) { i.Scalars["captive_portal"] = "https://example.com/portal" }},
@@ -193,6 +193,17 @@ func c17Check(c c17Case) (out [][2]string) {
 			bad("C17:scrape-error-not-surfaced", "the scrape failed (%v) but the metrics backend was not told: series are silently missing", serr)
 		}
 	}
+	if !c.Prepared && !c.StateErr && serr == nil {
+		// Not initialised yet, but the scrape answered: whatever it reports must still be
+		// true - in particular a non-forwarding interface is a misconfiguration.
+		if got[ifiForwarding]["eth0"] != b2f(c.Fwd) {
+			bad("C17:unprepared:forwarding-gauge", "forwarding gauge %v with forwarding=%t", got[ifiForwarding]["eth0"], c.Fwd)
+		}
+		_, mis := got[advMisconfiguration]["eth0|interface_not_forwarding"]
+		if wantMis := !c.Fwd && wantCfg.Interfaces[0].DefaultLifetime > 0; mis != wantMis {
+			bad("C17:unprepared:misconfiguration", "scrape before initialisation succeeded but reports misconfiguration=%t with forwarding=%t (configured lifetime %s)", mis, c.Fwd, wantCfg.Interfaces[0].DefaultLifetime)
+		}
+	}
 	if c.Prepared && !c.StateErr && wantOK {
 		if serr != nil {
 			bad("C17:scrape-error", "scrape failed although the interface is prepared: %v", serr)
@@ -265,6 +276,23 @@ func c17Check(c c17Case) (out [][2]string) {
 		bad("C17:route:/debug/pprof", "/debug/pprof/ status %d with debug.pprof=%t", rec.Code, c.PProf)
 	}
 	rec := get("/_/api/interfaces")
+	if !c.Prepared && !c.StateErr && rec.Code == 200 {
+		// Answered before initialisation: the lifetime shown must obey the forwarding rule.
+		var body struct {
+			Interfaces []struct {
+				Advertisement *struct {
+					Life int `json:"router_lifetime_seconds"`
+				} `json:"advertisement"`
+			} `json:"interfaces"`
+		}
+		wantLife := 0
+		if c.Fwd {
+			wantLife = int(wantCfg.Interfaces[0].DefaultLifetime / time.Second)
+		}
+		if json.Unmarshal(rec.Body.Bytes(), &body) == nil && len(body.Interfaces) > 0 && body.Interfaces[0].Advertisement != nil && body.Interfaces[0].Advertisement.Life != wantLife {
+			bad("C17:unprepared:api-lifetime", "API answered before initialisation with router_lifetime_seconds=%d, forwarding=%t (want %d)", body.Interfaces[0].Advertisement.Life, c.Fwd, wantLife)
+		}
+	}
 	if c.Prepared && !c.StateErr && wantOK && len(out) == 0 {
 		var body struct {
 			Interfaces []struct {
